@@ -178,32 +178,61 @@ def analyse(mod, run, label):
             for wa in wargs:
                 run.check(same(fn, wa, newW), "R3-explicit-width-is-measured-width", {"fn": fn.name, "put": loc(put), "callee": put.get("callee")},
                           Finding("R3-put-with-foreign-width", fn.name, "put:%s" % put.get("callee"), "width", "%s at %s stores the sum with an explicit width that is not the width measured for the sum (e.g. the old width): in the tagged format the 2- and 3-byte classes only represent values of exactly that class, so the stored bytes decode to a different number" % (put.get("callee"), loc(put)), loc=loc(put)))
-        # ---- R4 / R2b: the refusal comparison ----
-        cmpb = None
-        for b in fn.blocks:
-            t = b.term
-            if t.op == "br" and len(t.ops) == 3 and t.ops[0]["k"] == "inst":
-                ci = fn.imap[t.ops[0]["v"]]
-                if ci.op == "icmp" and (same(fn, ci.ops[0], newW) or same(fn, ci.ops[1], newW)): cmpb = (b, ci, t); break
-        if cmpb is None:
+        # ---- R4 / R2b: the refusal comparison, read off the edges rather than from one statement shape ----
+        fk = fn.param_index("force")
+        def norm_cond(o, truth=True, d=0):
+            """(kind, truth): kind = ('cmp', icmp inst) | ('force',) | None - through zext/trunc, `x != 0`, `x == 0`, `x ^ 1`"""
+            if d > 8: return None
+            if o["k"] == "arg": return (("force",), truth) if fk is not None and o["v"] == fk else None
+            if o["k"] != "inst": return None
+            x = fn.imap[o["v"]]
+            if x.op in ("zext", "trunc", "sext", "freeze"): return norm_cond(x.ops[0], truth, d + 1)
+            if x.op == "xor" and x.ops[1]["k"] == "int" and int(x.ops[1]["v"]) & 1: return norm_cond(x.ops[0], not truth, d + 1)
+            if x.op == "and" and x.ops[1]["k"] == "int" and int(x.ops[1]["v"]) == 1: return norm_cond(x.ops[0], truth, d + 1)
+            if x.op == "icmp":
+                if same(fn, x.ops[0], newW) or same(fn, x.ops[1], newW): return (("cmp", x), truth)
+                if x.ops[1]["k"] == "int" and int(x.ops[1]["v"]) == 0 and x["pred"] in ("ne", "eq"): return norm_cond(x.ops[0], truth if x["pred"] == "ne" else not truth, d + 1)
+            return None
+        def fits_when(ci, truth):
+            """does (ci == truth) imply newWidth <= oldWidth?  And is the boundary exactly new <= old / new > old?"""
+            new_left = same(fn, ci.ops[0], newW); p_ = ci["pred"].lstrip("us") if ci["pred"] not in ("eq", "ne") else ci["pred"]
+            rel = {"gt": ">", "ge": ">=", "lt": "<", "le": "<=", "eq": "==", "ne": "!="}[p_]
+            if not new_left: rel = {">": "<", ">=": "<=", "<": ">", "<=": ">=", "==": "==", "!=": "!="}[rel]
+            if not truth: rel = {">": "<=", ">=": "<", "<": ">=", "<=": ">", "==": "!=", "!=": "=="}[rel]
+            return rel in ("<=", "<", "=="), rel in ("<=", ">")
+        cmps = []
+        for b0 in fn.blocks:
+            t0 = b0.term
+            if t0.op == "br" and len(t0.ops) == 3:
+                nc = norm_cond(t0.ops[0])
+                if nc and nc[0][0] == "cmp": cmps.append((b0, nc[0][1]))
+        if not cmps:
             run.fail(Finding("R2-no-width-check", fn.name, "put", "guard", "no branch compares the new width with the old width: the write at %s happens whatever the sum needs (a no-grow add can outgrow its slot)" % loc(puts[0]), loc=loc(puts[0])))
             continue
-        b, ci, t = cmpb
-        new_left = same(fn, ci.ops[0], newW)
-        strict = (ci["pred"] in ("ugt", "sgt") and new_left) or (ci["pred"] in ("ult", "slt") and not new_left)
-        inv = (ci["pred"] in ("ule", "sle") and new_left) or (ci["pred"] in ("uge", "sge") and not new_left)     # !(new > old) form
-        run.check(strict or inv, "R4-refusal-only-when-strictly-larger", {"fn": fn.name, "compare": "%s at %s" % (ci["pred"], loc(ci))},
-                  Finding("R4-nonstrict-width-compare", fn.name, "width-compare", ci["pred"], "the no-grow test at %s is '%s': sums that still fit the current width are refused (or larger ones accepted)" % (loc(ci), ci["pred"]), loc=loc(ci)))
-        grow_succ = (t.ops[2]["v"] if strict else t.ops[1]["v"]) if (strict or inv) else None
+        for (b0, ci) in cmps:
+            exact = fits_when(ci, True)[1]
+            run.check(exact, "R4-refusal-only-when-strictly-larger", {"fn": fn.name, "compare": "%s at %s" % (ci["pred"], loc(ci))},
+                      Finding("R4-nonstrict-width-compare", fn.name, "width-compare", ci["pred"], "the no-grow test at %s is '%s': sums that still fit the current width are refused (or larger ones accepted)" % (loc(ci), ci["pred"]), loc=loc(ci)))
         for put in puts:
-            run.check(fn.dominates(b.id, put.block.id) and put.block.id != b.id, "R2-put-after-width-compare", {"fn": fn.name},
-                      Finding("R2-put-before-width-check", fn.name, "put", "order", "the write at %s is not dominated by the width comparison" % loc(put), loc=loc(put)))
-            if grow_succ is not None:
-                # from the `new > old` successor the put may only be reached through a test of the force flag
-                gb = fn.bmap[grow_succ]; tt = gb.term
-                forced = tt.op == "br" and len(tt.ops) == 3 and put.block.id != grow_succ
-                run.check(forced, "R2-grow-needs-force", {"fn": fn.name},
-                          Finding("R2-grow-without-force", fn.name, "put", "force", "when the sum needs more bytes the write at %s is reached without testing the force flag" % loc(put), loc=loc(put)))
+            # every way from the no-overflow edge to the write passes an edge on which the sum fits the old width, or on which force is set
+            bad_path = None; seen = set(); work = [put.block]
+            while work and bad_path is None:
+                blk = work.pop()
+                if blk.id in seen: continue
+                seen.add(blk.id)
+                if blk.id == ok_succ: bad_path = blk; break
+                for pb in blk.preds:
+                    t0 = pb.term; guarded = False
+                    if t0.op == "br" and len(t0.ops) == 3 and t0.ops[1]["v"] != t0.ops[2]["v"]:
+                        nc = norm_cond(t0.ops[0])
+                        if nc is not None:
+                            taken_true = (t0.ops[2]["v"] == blk.id); val = nc[1] if taken_true else not nc[1]
+                            if nc[0][0] == "force": guarded = val
+                            else: guarded = fits_when(nc[0][1], val)[0]
+                    if not guarded: work.append(pb)
+            grows_unforced = bad_path is not None
+            run.check(not grows_unforced, "R2-put-only-when-it-fits-or-forced", {"fn": fn.name, "put": loc(put)},
+                      Finding("R2-put-before-width-check", fn.name, "put", "order", "the write at %s can be reached from the checked addition without passing a test that the new width fits the old one or that growth was requested" % loc(put), loc=loc(put)))
         # returns not preceded by a put: only the overflow return and the refusal return
         putblocks = {p.block.id for p in puts}
         for r in fn.rets():
